@@ -113,7 +113,7 @@ fn for_pin() -> String {
 
 /// The battery at one coordinate: fixed query shapes, the id-bearing ones instantiated with
 /// elements that exist now (seeded choice).
-fn battery(w: &World, all: &World, rng: &mut Rng) -> Vec<Q> {
+fn battery(w: &World, all: &World, sc: &Scan, rng: &mut Rng) -> Vec<Q> {
     let mut b = vec![
         // element patterns (whole views: every field incl. _system is compared)
         q("element", "FIND(?c) WHERE { ?c CONCEPT {} }"),
@@ -132,6 +132,18 @@ fn battery(w: &World, all: &World, rng: &mut Rng) -> Vec<Q> {
         q("element", "FIND(?x) WHERE { ?x ACTIVITY {} }"),
         q("element", "FIND(?x.id) WHERE { ?x ACTIVITY {status: \"completed\"} }"),
         q("element", "FIND(?x.id, ?x._system.state) WHERE { ?x ACTIVITY {state: \"archived\"} }"),
+        // matcher keys the live engine decides in three different ways: by an index (type, key,
+        // name, state, class, status ...), against the rendered view (everything else, and every
+        // key once `id` is named), or by binding a variable
+        q("element", "FIND(?c.id, ?n, ?s) WHERE { ?c CONCEPT {name: ?n, state: ?s} }"),
+        q("element", "FIND(?c.id) WHERE { ?c CONCEPT {type: \"Person\", key: \"\"} }"),
+        q("element", "FIND(?a.id) WHERE { ?a ASSERTION {confidence: 0.5} }"),
+        q("element", "FIND(?a.id, ?who) WHERE { ?a ASSERTION {asserted_by: ?who, stance: \"reject\"} }"),
+        q("element", "FIND(?a.id, ?a.lifecycle.status) WHERE { ?a ASSERTION {state: \"archived\"} }"),
+        q("element", "FIND(?e.id) WHERE { ?e EVIDENCE {class: \"user_statement\", status: \"active\"} }"),
+        q("element", "FIND(?e.id, ?x) WHERE { ?e EVIDENCE {generated_by: ?x} }"),
+        q("element", "FIND(?x.id, ?x.status) WHERE { ?x ACTIVITY {class: \"reflection\"} }"),
+        q("element", "FIND(?x.id) WHERE { ?x ACTIVITY {status: \"running\"} }"),
         // tuple patterns
         q("tuple", "FIND(?p) WHERE { ?p PROPOSITION (?s, ?pr, ?o) }"),
         q("tuple", "FIND(?p.id, ?s.name, ?o.name) WHERE { ?p PROPOSITION (?s, \"prefers\", ?o) }"),
@@ -186,6 +198,18 @@ fn battery(w: &World, all: &World, rng: &mut Rng) -> Vec<Q> {
     if let Some(c) = pick(&all.concepts, rng) {
         b.push(q("element", format!("FIND(?c) WHERE {{ ?c CONCEPT {{id: {}}} }}", jstr(&c.id))));
         b.push(q("element", format!("FIND(?c.id, ?c._system.state) WHERE {{ ?c CONCEPT {{id: {}, state: {}}} }}", jstr(&c.id), jstr(&c.state))));
+        // an id together with constraints that may or may not hold for it (the id lookup skips
+        // the indexes, the constraints must still decide)
+        b.push(q("element", format!("FIND(?c.id) WHERE {{ ?c CONCEPT {{state: \"archived\", id: {}}} }}", jstr(&c.id))));
+        b.push(q("element", format!("FIND(?c.id) WHERE {{ ?c CONCEPT {{id: {}, type: \"Person\"}} }}", jstr(&c.id))));
+        let rows = elements(sc);
+        let name_of = |id: &str| rows.get(id).and_then(|r| r["name"].as_str()).unwrap_or("").to_string();
+        let other = pick(&all.concepts, rng).map(|o| name_of(&o.id)).unwrap_or_default();
+        if !other.is_empty() {
+            // `other` is this Concept's own name in about 1 of n cases
+            b.push(q("element", format!("FIND(?c.id) WHERE {{ ?c CONCEPT {{id: {}, name: {}}} }}", jstr(&c.id), jstr(&other))));
+            b.push(q("element", format!("FIND(?c.id, ?c._system.version) WHERE {{ ?c CONCEPT {{name: {}}} }}", jstr(&other))));
+        }
         b.push(q("tuple", "FIND(?p.id, ?o) WHERE { ?p PROPOSITION (:s, ?pr, ?o) }").p("s", &c.id));
         b.push(q("structural", "FIND(?y.id) WHERE { STRUCTURAL (:x, \"about\", ?y) }").p("x", &c.id));
         b.push(q("path", "FIND(?b.id) WHERE { (:a, \"same_as\"{1,3}, ?b) }").p("a", &c.id));
@@ -211,9 +235,11 @@ fn battery(w: &World, all: &World, rng: &mut Rng) -> Vec<Q> {
     }
     if let Some(a) = pick(&all.assertions, rng) {
         b.push(q("element", format!("FIND(?a) WHERE {{ ?a ASSERTION {{id: {}}} }}", jstr(&a.id))));
+        b.push(q("element", format!("FIND(?a.id) WHERE {{ ?a ASSERTION {{id: {}, status: \"active\", stance: \"support\"}} }}", jstr(&a.id))));
     }
     if let Some(e) = pick(&all.evidence, rng) {
         b.push(q("element", format!("FIND(?e) WHERE {{ ?e EVIDENCE {{id: {}}} }}", jstr(&e.id))));
+        b.push(q("element", format!("FIND(?e.id) WHERE {{ ?e EVIDENCE {{id: {}, status: \"corrected\"}} }}", jstr(&e.id))));
     }
     b
 }
@@ -318,7 +344,65 @@ enum Cmp {
     Different,
 }
 
-fn compare(live: &Result<Value, String>, replay: &Result<Value, String>, ordered: bool) -> Cmp {
+/// Where order carries no meaning: the row sequence of a query without ORDER BY, and - for the
+/// BELIEF families only - the lists inside a projection object (ledger id lists, the candidates
+/// of a slot), which follow the engine's candidate enumeration order. The column order inside a
+/// row and every list inside an element view (aliases, supersedes, structural references ...)
+/// are part of the answer and compared as they are.
+fn normalize(v: &Value, ordered: bool, loose_inside: bool) -> Value {
+    let inside = |x: &Value| if loose_inside { deep_sort(x) } else { x.clone() };
+    match v {
+        Value::Array(rows) => {
+            let mut rows: Vec<Value> = rows
+                .iter()
+                .map(|row| match row {
+                    Value::Array(cols) => Value::Array(cols.iter().map(inside).collect()),
+                    other => inside(other),
+                })
+                .collect();
+            if !ordered {
+                rows.sort_by_key(canon);
+            }
+            Value::Array(rows)
+        }
+        other => inside(other),
+    }
+}
+
+/// Paths (indices stripped) of the lists that differ as sequences but not as multisets.
+fn reordered_lists(a: &Value, b: &Value, path: &str, out: &mut BTreeSet<String>) {
+    match (a, b) {
+        (Value::Array(x), Value::Array(y)) if x.len() == y.len() => {
+            let key = |v: &Value| canon(&deep_sort(v));
+            let (mut ox, mut oy): (Vec<&Value>, Vec<&Value>) = (x.iter().collect(), y.iter().collect());
+            if !ox.iter().zip(&oy).all(|(p, q)| key(p) == key(q)) {
+                ox.sort_by_key(|v| key(v));
+                oy.sort_by_key(|v| key(v));
+                if !ox.iter().zip(&oy).all(|(p, q)| key(p) == key(q)) {
+                    return;
+                }
+                out.insert(if path.is_empty() { "<rows>".to_string() } else { path.to_string() });
+            }
+            for (p, q) in ox.into_iter().zip(oy) {
+                reordered_lists(p, q, &format!("{path}[]"), out);
+            }
+        }
+        (Value::Object(x), Value::Object(y)) => {
+            for (k, vx) in x {
+                if let Some(vy) = y.get(k) {
+                    reordered_lists(vx, vy, &if path.is_empty() { k.clone() } else { format!("{path}.{k}") }, out);
+                }
+            }
+        }
+        _ => {}
+    }
+}
+
+fn compare(live: &Result<Value, String>, replay: &Result<Value, String>, qu: &Q) -> Cmp {
+    // float aggregates (SUM / AVG) and projection scores depend on the order the rows were
+    // folded in, which no query fixes
+    let floats_free = matches!(qu.family, "aggregate" | "belief" | "belief_slot");
+    let loose_inside = matches!(qu.family, "belief" | "belief_slot");
     match (live, replay) {
         (Err(a), Err(b)) => {
             if a == b { Cmp::Equal } else { Cmp::Different }
@@ -327,19 +411,13 @@ fn compare(live: &Result<Value, String>, replay: &Result<Value, String>, ordered
             if canon(a) == canon(b) {
                 return Cmp::Equal;
             }
-            let norm = |v: &Value| -> Value {
-                match (ordered, v) {
-                    // ORDER BY: the row sequence is the answer, only the inside of a row is free
-                    (true, Value::Array(rows)) => Value::Array(rows.iter().map(deep_sort).collect()),
-                    _ => deep_sort(v),
-                }
-            };
-            if canon(&round_floats(a)) == canon(&round_floats(b)) {
+            if floats_free && canon(&round_floats(a)) == canon(&round_floats(b)) {
                 return Cmp::FloatRounding;
             }
+            let norm = |v: &Value| normalize(v, qu.ordered, loose_inside);
             if canon(&norm(a)) == canon(&norm(b)) {
                 Cmp::OrderOnly
-            } else if canon(&norm(&round_floats(a))) == canon(&norm(&round_floats(b))) {
+            } else if floats_free && canon(&norm(&round_floats(a))) == canon(&norm(&round_floats(b))) {
                 Cmp::FloatRounding
             } else {
                 Cmp::Different
@@ -429,7 +507,9 @@ async fn replay_one(
         if only.map(|o| !o.contains(&i)).unwrap_or(false) {
             continue;
         }
+        let t0 = std::time::Instant::now();
         let got = ask(nexus, qu, as_of).await?;
+        st.add(&format!("TMP_us:{}", qu.family), t0.elapsed().as_micros() as u64);
         st.eval();
         st.count(&format!("replayed:{form}"));
         st.count(&format!("replayed_family:{}", qu.family));
@@ -456,9 +536,18 @@ async fn replay_one(
                 continue;
             }
         }
-        match compare(live, &got, qu.ordered) {
+        match compare(live, &got, qu) {
             Cmp::Equal => st.count("replay_equal"),
-            Cmp::OrderOnly => st.count(&format!("replay_differs_in_unordered_positions_only:{}", qu.family)),
+            Cmp::OrderOnly => {
+                st.count(&format!("replay_differs_in_unordered_positions_only:{}", qu.family));
+                if let (Ok(a), Ok(b)) = (live, &got) {
+                    let mut at = BTreeSet::new();
+                    reordered_lists(a, b, "", &mut at);
+                    for p in at {
+                        st.count(&format!("reordered_list_tolerated:{}:{p}", qu.family));
+                    }
+                }
+            }
             Cmp::FloatRounding => st.count(&format!("replay_differs_in_float_rounding_only:{}", qu.family)),
             Cmp::Different if known_diff.map(|k| k.contains(&i)).unwrap_or(false) => {
                 st.count("replay_difference_already_reported_under_AS_OF_SEQ");
@@ -580,7 +669,7 @@ async fn hist_case_async(case: u64, rng: &mut Rng, st: &mut Stats, n_commits: us
         let all = world_all(&sc);
         let act = world_active(&all);
         let mut qs = vec![];
-        for qu in battery(&act, &all, rng) {
+        for qu in battery(&act, &all, &sc, rng) {
             let a = ask(&nexus, &qu, "").await?;
             st.count("battery_recorded");
             st.count(&format!("recorded_family:{}", qu.family));
@@ -676,7 +765,7 @@ fn main() {
     run.assume("AS OF TIME is replayed only for commits whose timestamp differs from every other journal row of the Space (equal timestamps are counted and skipped); SEARCH ... AS OF is documented as unsupported and is not in the battery; PURGE is not generated (the only statement allowed to change the past)");
     run.assume("all reads run as the system Principal (current authorization applies to historical reads by specification)");
     let t = run.tier;
-    run.parallel("hist", t.pick(40, 1200), 0.9, |c, rng, st| hist_case(c, rng, st, t.pick(18, 28), t.pick(1, 3)));
+    run.parallel("hist", t.pick(32, 1200), 0.9, |c, rng, st| hist_case(c, rng, st, t.pick(18, 28), t.pick(1, 3)));
     drain_reports(&mut run);
     run.floor("history_commits", 120);
     run.floor("battery_recorded", 6000);
